@@ -62,6 +62,13 @@ var reqBadBody = reqSpec{
 	body: sp(`not json`),
 }
 
+// client query strings with the names the GraphQL GET transport uses itself
+var reqGqlNames = reqSpec{
+	hdr: map[string][]string{"X-A": {"1"}},
+	qry: map[string][]string{"query": {"client-q"}, "operationName": {"client-op"}, "variables": {"client-v"}, "x": {"1"}},
+	par: map[string]string{"Id": "42"},
+}
+
 func scenarios(cfg out.Config, r *rng.R, raceMode bool) []scenario {
 	var res []scenario
 	add := func(name, m string, cc int, rq reqSpec, names ...string) {
@@ -95,6 +102,9 @@ func scenarios(cfg out.Config, r *rng.R, raceMode bool) []scenario {
 	add("corpus", "GET", 1, reqB, "head", "patch")
 	add("corpus", "GET", 1, reqB, "lower-get", "head") // all GET/HEAD by ToUpper: out of scope, body dropped
 	add("corpus", "OPTIONS", 1, reqB, "plain", "head")
+	add("corpus", "GET", 1, reqGqlNames, "gql-get", "plain", "qf")
+	add("corpus", "GET", 2, reqGqlNames, "plain", "gql-get-qf")
+	add("corpus", "POST", 1, reqGqlNames, "post", "gql-get", "plain")
 
 	// ---- exhaustive small scope: singles and ordered pairs
 	ccs := []int{1, 2}
@@ -112,7 +122,7 @@ func scenarios(cfg out.Config, r *rng.R, raceMode bool) []scenario {
 	for i, s1 := range shapes {
 		for j, s2 := range shapes {
 			for _, cc := range ccs {
-				if raceMode && !cfg.Thorough() && ((cc == 2 && (i+j)%3 != 0) || (cc == 1 && (i+2*j)%3 == 1)) {
+				if raceMode && !cfg.Thorough() && ((cc == 2 && (i+j)%3 != 0) || (cc == 1 && (i+2*j)%3 != 0)) {
 					continue
 				}
 				add("pair", "GET", cc, reqA, s1.name, s2.name)
@@ -127,9 +137,9 @@ func scenarios(cfg out.Config, r *rng.R, raceMode bool) []scenario {
 	}
 
 	// ---- structured random
-	nrand := 450
+	nrand := 400
 	if raceMode {
-		nrand = 150
+		nrand = 120
 	}
 	if cfg.Thorough() {
 		nrand *= 12
